@@ -13,7 +13,7 @@ import dfols.controller as _C  # noqa: E402
 PROP = "C07"
 LEVEL = "exploration"
 RULE = ("Profile 'sweep' (exhaustive): every documented key x every in-range, boundary, out-of-range and wrong-type value from the "
-        "committed table x nine base problems that use the key's feature. Profile 'args' (sampled): three generated classes over small random problems (n<=3, budgets <=40, LIN/SINLIN/HASHED/SCRIPT, none/box/"
+        "committed table x twelve base problems that use the key's feature. Profile 'args' (sampled): three generated classes over small random problems (n<=3, budgets <=40, LIN/SINLIN/HASHED/SCRIPT, none/box/"
         "scaled bounds, optional regulariser or projections). (a) valid: one or two user_params keys set to in-range or "
         "boundary values taken from a committed snapshot of the per-key type/range table (71 documented keys; default, "
         "both interval ends, default x 0.1 / x 10 clipped, None where allowed), on a base problem that actually uses the "
@@ -415,6 +415,16 @@ def kw_hook_for(case):
     return hook
 
 
+def innermost_dfols_frame(exc):
+    """module.function of the innermost traceback frame that lies in the dfols package (call-site identification)."""
+    import traceback
+    where = "?"
+    for fr in traceback.extract_tb(exc.__traceback__):
+        if os.sep + "dfols" + os.sep in fr.filename:
+            where = "%s.%s" % (os.path.splitext(os.path.basename(fr.filename))[0], fr.name)
+    return where
+
+
 def check_result_shape(res, s):
     names = {}
     for name in DOC_FLAGS:
@@ -459,7 +469,7 @@ def run(case):
         return res
     if o.exc is not None:
         res.fail("C07.returns" if cls != "invalid" else "C07.input_error",
-                 "solve raised %s: %s" % (type(o.exc).__name__, str(o.exc)[:150]))
+                 "solve raised %s: %s [in %s]" % (type(o.exc).__name__, str(o.exc)[:150], innermost_dfols_frame(o.exc)))
         res.nontrivial = True
         return res
     check_result_shape(res, s)
@@ -491,6 +501,16 @@ def known_projection_npt(case, clause, detail):
     # Always reached with npt != n+1 or a reduced initial set; occasionally (about 1 run in 500) with npt = n+1 when x0
     # is projected onto a corner of a thin feasible set and the rank repair runs out of attempts.
     return bool(b.get("proj")) and "Unable to generate suitable initial directions" in detail
+
+
+def known_projection_collapsed_init(case, clause, detail):
+    # call site: ZeroDivisionError in Model.interpolation_matrix (all interpolation points coincide) in a projection run whose
+    # projection routine is allowed to work (dykstra.max_iters >= 1): the projected coordinate steps collapsed onto the start point
+    b = case["base"]
+    up = dict(b.get("up") or {})
+    up.update(case["mut"].get("params") or {})
+    return bool(b.get("proj")) and "ZeroDivisionError" in detail and "[in model.interpolation_matrix]" in detail \
+        and up.get("dykstra.max_iters", 100) >= 1
 
 
 def known_hard_npt_growth(case, clause, detail):
@@ -557,6 +577,16 @@ SWEEP_BASES = [
     ("projections", _base(2, "lin", proj=[{"kind": "ball", "c": [0.0, 0.0], "r": 1.0}, {"kind": "half", "a": [1.0, 1.0], "beta": 1.0}], maxfun=10),
      ("dykstra", "matrix_rank")),
     ("noise-quit", _base(2, "hashed", up={"noise.quit_on_noise_level": True, "noise.additive_noise_level": 1e-2}), ("noise", "slow")),
+    # three bases distilled from rare multi-seed findings: each makes one family of keys bite
+    ("growing-safety-steps", _base(3, "lin", m=1, A=[[1.0, 0.0, 0.0]], b=[0.0], x0=[0.1, 0.0, 0.0], rhobeg=None, rhoend=1e-2, maxfun=10,
+                                   noise_flag=True, up={"growing.ndirs_initial": 1}), ("growing",)),
+    ("soft-restarts-adding-points", _base(3, "script", m=1, script=[[1.0]], lower=[0.0, 0.0, 0.0], upper=[0.2, 0.2, 0.2], x0=[0.05, 0.05, 0.05],
+                                          rhoend=1e-2, maxfun=10, noise_flag=True,
+                                          up={"restarts.use_restarts": True, "restarts.increase_npt": True, "restarts.max_npt": 6}), ("restarts",)),
+    ("projections-centre-start", _base(1, "lin", m=2, A=[[1.0], [0.0]], b=[0.0, 0.0], x0=[-50.0], rhobeg=5.0, rhoend=5e-3, maxfun=10,
+                                       proj=[{"kind": "ball", "c": [-50.0], "r": 1.25}],
+                                       up={"restarts.use_restarts": True, "restarts.use_soft_restarts": False, "restarts.hard.use_old_rk": False}),
+     ("dykstra", "matrix_rank")),
 ]
 
 
@@ -599,4 +629,5 @@ def coverage_extra(tier, merged):
     return {"explanation": "profile 'sweep' enumerates completely: every documented key x every in-range/boundary/out-of-range/"
             "wrong-type value of the committed table x the base problems that use the key's feature; profile 'args' is sampled"}
 KNOWN = {"projections-npt": known_projection_npt,
-         "hard-restart-npt-growth": known_hard_npt_growth, "subnormal-gap": known_subnormal_gap}
+         "hard-restart-npt-growth": known_hard_npt_growth, "subnormal-gap": known_subnormal_gap,
+         "projections-collapsed-init": known_projection_collapsed_init}
